@@ -252,6 +252,16 @@ fn wsvariant(c: &Value) -> Value {
                 if st > 0 && i < toks.len() { runs.push((offs[st], offs[i])); }
             } else { i += 1; }
         }
+        // blanks that separate tokens BY CONSTRUCTION of the text (given by the generator): they are varied even
+        // when the tokenizer under test has glued them into a token
+        if let Some(gs) = c["gaps"].as_array() {
+            for g in gs {
+                if let (Some(a), Some(b)) = (g[0].as_u64(), g[1].as_u64()) {
+                    let r = (a as usize, b as usize);
+                    if r.1 <= chars.len() && !runs.contains(&r) { runs.push(r); }
+                }
+            }
+        }
         if runs.is_empty() { return json!({"status":"noruns"}); }
         let mut layouts: Vec<String> = vec![" ".into(), "  ".into(), "\t".into(), "\n".into(), "\r".into(), "\r\n".into(), "\u{a0}".into(),
             " /* c */ ".into(), " /* /* n */ */ ".into(), " -- c\n".into(), "\n-- c\n ".into(), " # c\n".into(), " // c\n".into(), "\t\n \r\n".into(), "\u{2003}".into()];
@@ -661,6 +671,12 @@ fn nest_text(template: &str, n: usize) -> Option<String> {
         "explain" => format!("{}SELECT 1", rep("EXPLAIN ")),
         "datatype_array" => format!("SELECT CAST(x AS {}INT{})", rep("ARRAY<"), rep(">")),
         "datatype_struct" => format!("SELECT CAST(x AS {}INT{})", rep("STRUCT<a "), rep(">")),
+        "pattern" => format!("SELECT * FROM t MATCH_RECOGNIZE(PATTERN ({}A{}) DEFINE A AS true)", rep("("), rep(")")),
+        "pattern_alt" => format!("SELECT * FROM t MATCH_RECOGNIZE(PATTERN ({}A{}) DEFINE A AS true)", rep("A | ("), rep(")")),
+        "prior" => format!("SELECT a FROM t START WITH a = 1 CONNECT BY a = {}b", rep("PRIOR ")),
+        "union_paren" => format!("{}SELECT 1{}", rep("("), rep(") UNION SELECT 2").replacen(" UNION SELECT 2", "", 1)),
+        "cte" => format!("{}SELECT 1{}", rep("WITH a AS ("), rep(") SELECT 1")),
+        "subscript" => format!("SELECT a{}", rep("[1]")),
         _ => return None,
     })
 }
@@ -681,6 +697,24 @@ fn ladder(c: &Value) -> Value {
         Ok(Err(e)) => json!({"status": if matches!(e, sqlparser::parser::ParserError::RecursionLimitExceeded) {"limit"} else {"error"}, "steps":steps,"ms":ms,"len":sql.len(),"error":e.to_string()}),
         Err(e) => json!({"status":"panic","panic":panic_msg(e),"steps":steps}),
     }
+}
+
+/// C02: a very deep nest must come back (value, error or limit error), never abort the process.
+/// The result is leaked: dropping or printing a huge tree is not what is probed here.
+fn deep(c: &Value) -> Value {
+    let d = dialect_by_name(c["dialect"].as_str().unwrap());
+    let t = c["template"].as_str().unwrap();
+    let n = c["n"].as_u64().unwrap() as usize;
+    let sql = match nest_text(t, n) { Some(s) => s, None => return json!({"status":"unknown-template"}) };
+    set_current(&json!({"template": t, "n": n}).to_string());
+    let r = std::panic::catch_unwind(std::panic::AssertUnwindSafe(|| parse_opts(d.as_ref(), &sql, true, false, None)));
+    let out = match &r {
+        Ok(Ok(_)) => json!({"status":"ok","len":sql.len()}),
+        Ok(Err(e)) => json!({"status": if matches!(e, sqlparser::parser::ParserError::RecursionLimitExceeded) {"limit"} else {"error"}, "len":sql.len()}),
+        Err(_) => json!({"status":"panic"}),
+    };
+    std::mem::forget(r);
+    out
 }
 
 fn parse(c: &Value) -> Value {
@@ -710,6 +744,7 @@ fn main() {
         "recase" => for_each_case(recase),
         "lex" => for_each_case(lex),
         "parse" => for_each_case(parse),
+        "deep" => for_each_case(deep),
         "lexprop" => for_each_case(lexprop),
         "literal" => for_each_case(literal),
         "rawmode" => for_each_case(rawmode),
